@@ -20,9 +20,10 @@ TRUSTED = ["model: coq/theories/Model/CQMSpec.v (plain list of polynomials), Exp
 ASSUMPTIONS = ["the base quadratic model of an expression (abc.h adjacency) is abstracted to a list of linear biases and a bag of "
                "interactions over local indices (Adj.v is the detailed mirror)",
                "IEEE-754 arithmetic is exact on the small dyadic coefficients generated"]
-PARTIAL = ["C05_cqm_refines_spec_remove_variable_partial: the refinement M -> S is proved for remove_variable (the re-indexing "
-           "operation) only; for the other operations abs(M step) = S step is tied by the correspondence check (index-level "
-           "replay of view add_linear/set_linear/add_quadratic/remove_variable, fix_variable and the move path), not by proof",
-           "ExprInv preservation is proved for enforce_variable, reindex_variables, Expression::remove_variable (view level) and "
-           "the move path; remove_variables (bulk path, not reachable from the Python API, not replayed either) and "
-           "substitute_variable (replayed) are modelled but not proved"]
+PARTIAL = ["bulk Expression::remove_variables (utils.h remove_by_index path) is modelled (Expr.v m_remove_variables) but neither "
+           "proved equal to iterated single removal nor replayed: it is not reachable from the Python CQM API",
+           "the whole-history refinement C05_cqm_refines_spec is at index level (the C++ API: Model/ExprOps.v); the label layer "
+           "(Variables as a list of labels, property C13) is proved for remove_variable "
+           "(C05_cqm_refines_spec_remove_variable_labels) and tied by the correspondence check for the rest",
+           "refinement is stated as equality of the energy function / of all coefficients (peq); the order of terms inside an "
+           "expression and the presence of explicit zero interactions are compared by the correspondence check only"]
